@@ -1,41 +1,67 @@
 // C17 correspondence harness: GeneralForceSubsystem's parallel force evaluation (CalcForcesParallelTask /
-// CalcForcesNonParallelTask, modes All / CachedAndNonCached / NonCached) against the serial sum.
+// CalcForcesNonParallelTask, modes All / CachedAndNonCached / NonCached) against an independent serial sum.
 //
 // Every force element is a Force::Custom::Implementation with chosen shouldBeParallelIfPossible() /
 // dependsOnlyOnPositions() flags that adds known INTEGER-valued increments to mobility / body force slots, so the
-// totals are exact whatever the summation order.  One record per realization:
+// totals are exact whatever the summation order.  The increments may depend on the state: a factor (1+qcode) read
+// from q[0] (allowed for position-only forces) or (1+ucode) read from u[0], so a stale position-only cache or a
+// skipped evaluation changes the total.  One record per realization:
 //
-//   I cf <threads> <mode> <D> <nf> { <dbd> <en> <par> <pos> <nc> { <slot>:<val>:<reps> }*nc }*nf
-//        threads      value given to setNumberOfThreads          mode  0 All, 1 CachedAndNonCached, 2 NonCached
-//        D            number of force slots = nu + 6*nbodies      the force list = ALL forces of the subsystem in index order
-//        dbd          1 iff the force was setDisabledByDefault(true) before realizeTopology
-//        en           1 iff the force is enabled in the State at this realization (after the enable/disable history)
-//        slot:val:reps  the force adds `val` to slot `slot`, `reps` times (reps > 1 = deliberately slow force)
+//   I cf <threads> <after> <mode> <D> <qcode> <ucode> <nf> { <dbd> <en> <par> <pos> <dep> <nc> { <slot>:<val>:<reps> }*nc }*nf
+//        threads      value last given to setNumberOfThreads
+//        after        0: that call preceded the last realizeTopology; 1: it FOLLOWED it (executor replaced after the task
+//                     class / one-thread downgrade had been decided)
+//        mode         0 All, 1 CachedAndNonCached, 2 NonCached  (the caching path the harness steered the subsystem into)
+//        D            number of force slots = nu + 6*nbodies;  qcode = round(100 q[0]), ucode = round(10 u[0])
+//        the force list = ALL forces of the subsystem in index order:
+//        dbd          1 iff setDisabledByDefault(true) before realizeTopology;  en  1 iff enabled in the State now
+//        dep          0 constant, 1 value*(1+qcode), 2 value*(1+ucode)
+//        slot:val:reps  the force adds `val`(*factor) to slot `slot`, `reps` times (reps > 1 = deliberately slow force)
 //   O cf <D integers>      total mobility forces then body forces (moment xyz, force xyz per body) after realize(Dynamics)
 //   P total_equals_serial <key> <max |total - independent serial sum over the currently ENABLED forces|> 0
-//        key = CalcForces.mode_<M>.lost_update  when the model says the configuration is exposed to the unlocked
-//              writes of task 0 (mode != All, >= 2 executor threads, some enabled non-parallel force evaluated), finding F7
-//              CalcForces.mode_<M>.total        otherwise
-// modes of the harness: '' generic mixes;  'f7' the dedicated lost-update stream (slow non-parallel force + 6 parallel
-// forces + one position-only force, 8 threads, 30 realizations per caching mode);  'replay'.
+//        key = CalcForces.threads_after_topology.nonparallel_task   setNumberOfThreads(>=2) after realizeTopology on a
+//                                                                   subsystem without parallel forces (finding, see notes)
+//              CalcForces.mode_<M>.lost_update   configuration exposed to the pre-fix unlocked writes of task 0 (F7, regression)
+//              CalcForces.mode_<M>.total         otherwise
+// modes of the harness: '' generic mixes with enable/disable and thread-count histories;  'f7' the dedicated lost-update
+// stream (slow non-parallel force + 6 parallel + one position-only, 8 threads, 30 realizations per caching mode);
+// 'f7p' slow PARALLEL and slow parallel position-only forces all hitting the same slots;  'ta' the threads-after-topology
+// stream;  'replay'.
+// Schedule perturbation: every calcForce call may yield (seeded per case and thread); no hook in /repo is used.
 #include "Simbody.h"
 #include "hcommon.h"
 #include <memory>
+#include <thread>
+#include <atomic>
 using namespace SimTK;
 
 struct Contrib { int slot; long val; long reps; };
-struct Spec { bool par, pos, enabled, dbd; std::vector<Contrib> cs; };   // enabled = current flag in the State
+struct Spec { bool par, pos, enabled, dbd; int dep; std::vector<Contrib> cs; };   // enabled = current flag in the State
+
+static std::atomic<uint64_t> g_yseed{1};
+static void perturb() {
+    static thread_local uint64_t rng = 0, seedSeen = 0;
+    uint64_t ys = g_yseed.load(std::memory_order_relaxed);
+    if (seedSeen != ys) { seedSeen = ys; rng = ys * 0x9E3779B97F4A7C15ull + std::hash<std::thread::id>()(std::this_thread::get_id()); if (!rng) rng = 1; }
+    rng ^= rng << 13; rng ^= rng >> 7; rng ^= rng << 17;
+    if (((rng >> 40) & 7u) == 0) std::this_thread::yield();
+}
 
 struct TestForce : public Force::Custom::Implementation {
     Spec sp; int nu;
     TestForce(const Spec& s, int nu) : sp(s), nu(nu) {}
-    void calcForce(const State&, Vector_<SpatialVec>& bodyForces, Vector_<Vec3>&, Vector& mobilityForces) const override {
+    void calcForce(const State& st, Vector_<SpatialVec>& bodyForces, Vector_<Vec3>&, Vector& mobilityForces) const override {
+        perturb();
+        long factor = 1;
+        if (sp.dep == 1) factor = 1 + std::lround(st.getQ()[0] * 100.0);
+        else if (sp.dep == 2) factor = 1 + std::lround(st.getU()[0] * 10.0);
         for (const Contrib& c : sp.cs) {
-            volatile double v = (double)c.val;
-            if (c.slot < nu) { for (long r = 0; r < c.reps; ++r) mobilityForces[c.slot] += v; }
+            volatile double v = (double)(c.val * factor);
+            if (c.slot < nu) { for (long r = 0; r < c.reps; ++r) { mobilityForces[c.slot] += v; if ((r & 0xFFFF) == 0xFFFF) perturb(); } }
             else { int k = c.slot - nu, b = k / 6, comp = k % 6;
-                   for (long r = 0; r < c.reps; ++r) bodyForces[b][comp / 3][comp % 3] += v; }
+                   for (long r = 0; r < c.reps; ++r) { bodyForces[b][comp / 3][comp % 3] += v; if ((r & 0xFFFF) == 0xFFFF) perturb(); } }
         }
+        perturb();
     }
     Real calcPotentialEnergy(const State&) const override { return 0; }
     bool dependsOnlyOnPositions() const override { return sp.pos; }
@@ -46,16 +72,18 @@ struct Sys {
     MultibodySystem system; SimbodyMatterSubsystem matter; GeneralForceSubsystem forces;
     std::vector<MobilizedBody::Pin> pins; std::vector<ForceIndex> fidx; State state;
     int nu, D;
-    Sys(int nb, const std::vector<Spec>& specs, int threads) : matter(system), forces(system) {
+    // threadsBefore > 0: setNumberOfThreads before realizeTopology; threadsAfter > 0: (also) after it
+    Sys(int nb, const std::vector<Spec>& specs, int threadsBefore, int threadsAfter) : matter(system), forces(system) {
         Body::Rigid body(MassProperties(1, Vec3(0, -1, 0), Inertia(1)));
         MobilizedBody parent = matter.Ground();
         for (int b = 0; b < nb; ++b) { pins.emplace_back(parent, Transform(Vec3(0, -1, 0)), body, Transform()); parent = pins.back(); }
         nu = nb; D = nu + 6 * (nb + 1);
         for (const Spec& s : specs) { Force::Custom f(forces, new TestForce(s, nu)); if (s.dbd) f.setDisabledByDefault(true);
                                       fidx.push_back(f.getForceIndex()); }
-        forces.setNumberOfThreads(threads);
+        if (threadsBefore > 0) forces.setNumberOfThreads(threadsBefore);
         state = system.realizeTopology();
         system.realizeModel(state);
+        if (threadsAfter > 0) forces.setNumberOfThreads(threadsAfter);
     }
     void setEnabled(int k, bool en) { forces.setForceIsDisabled(state, fidx[k], !en); }
     std::vector<double> totals() {
@@ -71,19 +99,20 @@ struct Sys {
 
 static const char* MODE_NAME[] = {"All", "CachedAndNonCached", "NonCached"};
 
-static void emitRecord(int threads, const std::vector<Spec>& specs, int mode, int D, const std::vector<double>& tot, const char* tag) {
-    bool hasPar = false, exposedForce = false; int nEnabled = 0;
+static void emitRecord(int threads, bool after, const std::vector<Spec>& specs, int mode, int D, long qcode, long ucode,
+                       const std::vector<double>& tot, const char* tag) {
+    bool hasPar = false, exposedForce = false;
     std::vector<double> serial(D, 0.0);
     for (const Spec& s : specs) {
         hasPar = hasPar || s.par;
         if (!s.enabled) continue;
-        ++nEnabled;
-        for (const Contrib& c : s.cs) serial[c.slot] += (double)c.val * (double)c.reps;
+        long factor = s.dep == 1 ? 1 + qcode : s.dep == 2 ? 1 + ucode : 1;
+        for (const Contrib& c : s.cs) serial[c.slot] += (double)c.val * (double)factor * (double)c.reps;
         if (!s.par && !(mode == 2 && s.pos)) exposedForce = true;
     }
-    vh::Line in = vh::I("cf"); in.i(threads).i(mode).i(D).i((long long)specs.size());
+    vh::Line in = vh::I("cf"); in.i(threads).i(after ? 1 : 0).i(mode).i(D).i(qcode).i(ucode).i((long long)specs.size());
     for (const Spec& s : specs) {
-        in.i(s.dbd ? 1 : 0).i(s.enabled ? 1 : 0).i(s.par ? 1 : 0).i(s.pos ? 1 : 0).i((long long)s.cs.size());
+        in.i(s.dbd ? 1 : 0).i(s.enabled ? 1 : 0).i(s.par ? 1 : 0).i(s.pos ? 1 : 0).i(s.dep).i((long long)s.cs.size());
         for (const Contrib& c : s.cs) in.s(std::to_string(c.slot) + ":" + std::to_string(c.val) + ":" + std::to_string(c.reps));
     }
     in.emit();
@@ -96,36 +125,50 @@ static void emitRecord(int threads, const std::vector<Spec>& specs, int mode, in
     }
     for (int i = 0; i < D; ++i) { if (integral) out.i((long long)tot[i]); else out.d(tot[i]); }
     out.emit();
-    int effThreads = hasPar ? threads : 1;
+    // executor threads actually in force: the one-thread downgrade happens inside realizeTopology only
+    int effThreads = hasPar ? threads : (after ? threads : 1);
+    bool unsafeNPT = !hasPar && after && threads >= 2;
     bool exposed = effThreads >= 2 && mode != 0 && exposedForce;
-    bool lateEnabledPar = false, stateDisabled = false;
-    for (const Spec& s : specs) { if (s.dbd && s.enabled && s.par) lateEnabledPar = true; if (!s.dbd && !s.enabled) stateDisabled = true; }
+    bool lateEnabledPar = false, stateDisabled = false, slow = false;
+    for (const Spec& s : specs) { if (s.dbd && s.enabled && s.par) lateEnabledPar = true; if (!s.dbd && !s.enabled) stateDisabled = true;
+                                  for (const Contrib& c : s.cs) if (c.reps > 1 && s.enabled) slow = true; }
     vh::D(std::string("cf.") + tag + ".mode_" + MODE_NAME[mode] + (exposed ? ".exposed" : ".safe") + ".threads" + std::to_string(threads));
+    vh::D(std::string("cf.threads_set.") + (after ? "after_topology" : "before_topology") + (hasPar ? ".parallel_task" : ".nonparallel_task"));
     if (lateEnabledPar) vh::D("cf.history.parallel_force_disabled_by_default_then_enabled");
     if (stateDisabled) vh::D("cf.history.force_disabled_in_state");
-    vh::P("total_equals_serial", std::string("CalcForces.mode_") + MODE_NAME[mode] + (exposed ? ".lost_update" : ".total"), worst, 0);
+    if (slow) vh::D("cf.slow_force_present");
+    std::string key = unsafeNPT ? std::string("CalcForces.threads_after_topology.nonparallel_task")
+                                : std::string("CalcForces.mode_") + MODE_NAME[mode] + (exposed ? ".lost_update" : ".total");
+    vh::P("total_equals_serial", key, worst, 0);
 }
 
 // run realizations on one system.  `ops` is a list of tokens applied before each realization:
-//   "p" positions changed, "v" only velocities changed, "e<k>" / "d<k>" enable / disable force k in the State
-// (a token group ends with "p" or "v", which triggers the realization).  specs[k].enabled must start as !dbd.
-static void runCase(int nb, std::vector<Spec> specs, int threads, const std::vector<std::string>& ops, const char* tag) {
-    Sys S(nb, specs, threads);
+//   "p" positions changed, "v" only velocities changed (each triggers a realization),
+//   "e<k>" / "d<k>" enable / disable force k in the State, "t<n>" setNumberOfThreads(n) (after topology).
+// specs[k].enabled must start as !dbd.
+static void runCase(int nb, std::vector<Spec> specs, int threadsBefore, int threadsAfter, const std::vector<std::string>& ops,
+                    const char* tag, long q0 = 0, long u0 = 0) {
+    Sys S(nb, specs, threadsBefore, threadsAfter);
     bool caching = false; for (const Spec& s : specs) caching = caching || s.pos;
-    bool cacheValid = false; int k = 0;
+    int threads = threadsAfter > 0 ? threadsAfter : threadsBefore; bool after = threadsAfter > 0;
+    bool cacheValid = false; long qcode = q0, ucode = u0, k = 0;
     for (const std::string& op : ops) {
         if (op[0] == 'e' || op[0] == 'd') {
             int f = std::atoi(op.c_str() + 1); bool en = op[0] == 'e';
             if (specs[f].enabled != en) { S.setEnabled(f, en); specs[f].enabled = en; cacheValid = false; }
             continue;
         }
+        if (op[0] == 't') { threads = std::atoi(op.c_str() + 1); after = true; S.forces.setNumberOfThreads(threads); continue; }
         ++k;
-        if (op[0] == 'p') { S.pins[0].setOneQ(S.state, 0, 0.01 * (double)k); cacheValid = false; }
-        else S.pins[0].setOneU(S.state, 0, 0.1 * (double)k);
+        // writing q (even to its current value) invalidates Stage::Position and with it the position-only cache, so q is
+        // written for 'p' only; 'v' writes u only
+        if (op[0] == 'p') { qcode = q0 + k; cacheValid = false; S.pins[0].setOneQ(S.state, 0, 0.01 * (double)qcode); }
+        else ucode = u0 + k;
+        S.pins[0].setOneU(S.state, 0, 0.1 * (double)ucode);
         int mode = !caching ? 0 : (cacheValid ? 2 : 1);
         std::vector<double> t = S.totals();
         cacheValid = caching;
-        emitRecord(threads, specs, mode, S.D, t, tag);
+        emitRecord(threads, after, specs, mode, S.D, qcode, ucode, t, tag);
     }
 }
 static std::vector<std::string> opsOf(const std::string& kinds) {
@@ -134,9 +177,19 @@ static std::vector<std::string> opsOf(const std::string& kinds) {
 
 static std::vector<Spec> f7Specs() {
     std::vector<Spec> v;
-    v.push_back(Spec{false, false, true, false, {Contrib{0, 1, 2000000}}});              // slow, non-parallel, velocity dependent
-    for (int i = 0; i < 6; ++i) v.push_back(Spec{true, false, true, false, {Contrib{0, 1000, 1}}});   // parallel forces
-    v.push_back(Spec{false, true, true, false, {Contrib{0, 5, 1}}});                       // position-only: switches caching on
+    v.push_back(Spec{false, false, true, false, 0, {Contrib{0, 1, 2000000}}});              // slow, non-parallel, velocity dependent
+    for (int i = 0; i < 6; ++i) v.push_back(Spec{true, false, true, false, 0, {Contrib{0, 1000, 1}}});   // parallel forces
+    v.push_back(Spec{false, true, true, false, 0, {Contrib{0, 5, 1}}});                       // position-only: switches caching on
+    return v;
+}
+// slow PARALLEL forces (velocity dependent and position-only) plus a slow non-parallel one, all on the same two slots:
+// a parallel-force task that wrote the shared result / cache arrays directly would lose updates here
+static std::vector<Spec> f7pSpecs() {
+    std::vector<Spec> v;
+    v.push_back(Spec{false, false, true, false, 0, {Contrib{0, 1, 300000}}});
+    for (int i = 0; i < 4; ++i) v.push_back(Spec{true, false, true, false, 0, {Contrib{0, 1, 200000}, Contrib{1, 1, 100000}}});
+    for (int i = 0; i < 3; ++i) v.push_back(Spec{true, true, true, false, 0, {Contrib{0, 1, 200000}, Contrib{1, 1, 100000}}});
+    v.push_back(Spec{false, true, true, false, 0, {Contrib{1, 1, 200000}}});
     return v;
 }
 
@@ -145,20 +198,20 @@ static void replay() {
     while (std::fgets(buf, 1 << 20, stdin)) {
         std::istringstream is(buf); std::string k, fn; is >> k >> fn;
         if (k != "I" || fn != "cf") continue;
-        int threads, mode, D, nf; is >> threads >> mode >> D >> nf;
-        std::vector<Spec> specs; std::vector<std::string> ops; bool anyPos = false;
+        int threads, after, mode, D, nf; long qcode, ucode; is >> threads >> after >> mode >> D >> qcode >> ucode >> nf;
+        std::vector<Spec> specs; std::vector<std::string> ops;
         for (int f = 0; f < nf; ++f) {
-            int dbd, en, par, pos, nc; is >> dbd >> en >> par >> pos >> nc; Spec s{par != 0, pos != 0, dbd == 0, dbd != 0, {}};
+            int dbd, en, par, pos, dep, nc; is >> dbd >> en >> par >> pos >> dep >> nc; Spec s{par != 0, pos != 0, dbd == 0, dbd != 0, dep, {}};
             for (int c = 0; c < nc; ++c) { std::string t; is >> t; Contrib cc; long a, b, r;
                 if (std::sscanf(t.c_str(), "%ld:%ld:%ld", &a, &b, &r) == 3) { cc.slot = (int)a; cc.val = b; cc.reps = r; s.cs.push_back(cc); } }
-            anyPos = anyPos || s.pos; specs.push_back(s);
+            specs.push_back(s);
             if ((en != 0) != s.enabled) ops.push_back(std::string(en ? "e" : "d") + std::to_string(f));   // reach the recorded mask in the State
         }
-        // mode != All with no position-only force listed cannot happen (all forces are listed); the recorded mode is
-        // reproduced by the invalidation kind: for NonCached the record of interest is the 2nd realization
+        // the recorded caching path is reproduced by the invalidation kind: for NonCached the record of interest is the
+        // 2nd realization (q unchanged, u changed); q0/u0 are chosen so that the codes of that record match
         ops.push_back("p"); if (mode == 2) ops.push_back("v");
         int nb = (D - 6) / 7;
-        runCase(nb, specs, threads, ops, "replay");
+        runCase(nb, specs, after ? 0 : threads, after ? threads : 0, ops, "replay", qcode - 1, mode == 2 ? ucode - 2 : ucode);
     }
 }
 
@@ -166,15 +219,33 @@ int main(int argc, char** argv) {
     vh::Args args(argc, argv);
     if (args.mode == "replay") { replay(); return 0; }
     vh::Rng g(args.seed * 7919 + 17);
+    g_yseed = args.seed * 1000003 + 1;
     if (args.mode == "f7") {
         // the dedicated lost-update stream: 30 realizations in NonCached mode, 30 in CachedAndNonCached mode
-        runCase(1, f7Specs(), 8, opsOf("p" + std::string(30, 'v')), "f7");
-        runCase(1, f7Specs(), 8, opsOf(std::string(30, 'p')), "f7");
+        runCase(1, f7Specs(), 8, 0, opsOf("p" + std::string(30, 'v')), "f7");
+        runCase(1, f7Specs(), 8, 0, opsOf(std::string(30, 'p')), "f7");
         return 0;
     }
-    static const int TH[] = {1, 2, 3, 8, 16, 4, 5, 6, 7, 12};
+    if (args.mode == "f7p") {
+        runCase(1, f7pSpecs(), 8, 0, opsOf("p" + std::string(12, 'v')), "f7p");
+        runCase(1, f7pSpecs(), 8, 0, opsOf(std::string(12, 'p')), "f7p");
+        return 0;
+    }
+    if (args.mode == "ta") {
+        // threads set AFTER realizeTopology: subsystem without parallel forces (non-parallel task) and with them
+        for (int rep = 0; rep < 3; ++rep) {
+            std::vector<Spec> np; np.push_back(Spec{false, false, true, false, 0, {Contrib{0, 1, 200000}}});
+            np.push_back(Spec{false, rep == 1, true, false, 0, {Contrib{0, 7, 1}}});
+            runCase(1, np, rep == 2 ? 4 : 0, 8, opsOf(std::string(10, 'v')), "ta");
+            std::vector<Spec> wp = np; wp.push_back(Spec{true, false, true, false, 0, {Contrib{0, 1000, 1}}});
+            runCase(1, wp, rep == 2 ? 4 : 0, 8, opsOf(std::string(5, 'v')), "ta");
+        }
+        return 0;
+    }
+    static const int TH[] = {1, 2, 3, 8, 16, 4, 5, 6, 7, 12, 9, 10, 11, 13, 14, 15};
     long records = 0;
     while (records < args.n) {
+        g_yseed = g.next() | 1;
         int nb = 1 + g.below(4), nu = nb, D = nu + 6 * (nb + 1);
         int nf = 1 + g.below(10);
         int flavour = g.below(4);          // 0: no position-only force (mode All); 1: no parallel force; else anything
@@ -186,13 +257,20 @@ int main(int argc, char** argv) {
             Spec s; s.par = flavour == 1 ? false : g.below(2) == 0; s.pos = flavour == 0 ? false : g.below(3) == 0;
             s.dbd = hist == 0 ? false : hist == 1 ? s.par : g.below(3) == 0;
             s.enabled = !s.dbd;
+            s.dep = g.below(2) == 0 ? 0 : (s.pos ? 1 : 1 + g.below(2));        // position-only forces may depend on q only
             int nc = 1 + g.below(4);
-            for (int c = 0; c < nc; ++c) s.cs.push_back(Contrib{g.below(D), (long)g.below(2001) - 1000, 1});
+            bool slow = g.below(10) == 0;
+            for (int c = 0; c < nc; ++c) s.cs.push_back(Contrib{g.below(D), (long)g.below(2001) - 1000, slow ? 20000 + g.below(80001) : 1});
             specs.push_back(s);
         }
         if (hist == 1 && flavour != 1) { bool any = false; for (auto& s : specs) any = any || s.par;
                                          if (!any) { specs[0].par = true; specs[0].dbd = true; specs[0].enabled = false; } }
-        int threads = TH[g.below(g.below(4) == 0 ? 10 : 5)];
+        // THREAD-COUNT history: 0 set before topology (3/5), 1 set after topology only, 2 before and again after,
+        // plus optional changes between realizations ("t<n>")
+        int thist = g.below(5); thist = thist <= 2 ? 0 : thist - 2;
+        int tsel = g.below(4) == 0 ? 16 : 5;
+        int threads = TH[g.below(tsel)], threads2 = TH[g.below(tsel)];
+        int tBefore = thist == 1 ? 0 : threads, tAfter = thist == 0 ? 0 : threads2;
         // realizations separated by random enable/disable toggles in the State and position / velocity-only changes
         std::vector<std::string> ops; int nreal = 3 + g.below(4);
         std::vector<int> order; for (int f = 0; f < nf; ++f) order.push_back(f);
@@ -209,10 +287,11 @@ int main(int argc, char** argv) {
                     cur[f] = !cur[f];
                     ops.push_back(std::string(cur[f] ? "e" : "d") + std::to_string(f));
                 }
+                if (g.below(8) == 0) ops.push_back("t" + std::to_string(TH[g.below(tsel)]));   // thread count changed between realizations
             }
             ops.push_back((k == 0 || g.below(3) == 0) ? "p" : "v");
         }
-        runCase(nb, specs, threads, ops, "mix");
+        runCase(nb, specs, tBefore, tAfter, ops, "mix");
         records += nreal;
     }
     return 0;
